@@ -1,5 +1,3 @@
-/* (Each REACH costs a full JSON trace of the 45 KB struct thread in the runner: only the
- * outcomes the property talks about carry one.) */
 /* C04 -- thread.c: exact contracts of thread_set_state / set_cpu / unset_cpu /
  * migrate_cpu on the real file; chan_set is replaced by cr_chan_set (proved in
  * group chan_set on the real chan.c). */
@@ -13,6 +11,9 @@ void h_thread_set_state(void)
 	WITNESS_ON(thread_set_state); WITNESS_OFF(chan_set);
 	unsigned c0 = g_cb_calls;
 	int r = thread_set_state(th, state);
+	if (r == 0 && w_newstate == TH_ST_DEAD) REACH("set_state DEAD accepted");
+	if (r == 0 && g_cb_calls == c0) REACH("set_state accepted, nothing stored (both duplicates ignored)");
+	if (r != 0 && w_has_cpu && g_cb_calls == c0) REACH("set_state refused by a channel");
 	if (r == 0 && g_cb_calls == c0 + 2) REACH("set_state accepted, both channels became dirty");
 	if (r != 0 && !w_has_cpu) REACH("set_state refused: no cpu");
 	if (r != 0 && w_has_cpu && g_cb_calls == c0 + 2) REACH("set_state refused by the second callback");
@@ -24,6 +25,7 @@ void h_thread_set_cpu(void)
 	WITNESS_ON(thread_set_cpu); WITNESS_OFF(chan_set);
 	int r = thread_set_cpu(th, cpu);
 	if (r == 0) REACH("set_cpu accepted");
+	if (r != 0 && w_cpu_null) REACH("set_cpu refused: NULL cpu");
 	if (r != 0 && !w_cpu_null && w_has_cpu) REACH("set_cpu refused: already has a cpu");
 	if (r != 0 && !w_cpu_null && !w_has_cpu) REACH("set_cpu refused by the channel");
 }
@@ -35,6 +37,7 @@ void h_thread_unset_cpu(void)
 	int r = thread_unset_cpu(th);
 	if (r == 0) REACH("unset_cpu accepted");
 	if (r != 0 && !w_has_cpu) REACH("unset_cpu refused: no cpu");
+	if (r != 0 && w_has_cpu) REACH("unset_cpu refused by the channel");
 }
 
 void h_thread_migrate_cpu(void)
@@ -44,4 +47,5 @@ void h_thread_migrate_cpu(void)
 	int r = thread_migrate_cpu(th, cpu);
 	if (r == 0) REACH("migrate_cpu accepted");
 	if (r != 0 && !w_has_cpu) REACH("migrate_cpu refused: no cpu");
+	if (r != 0 && w_has_cpu) REACH("migrate_cpu refused by the channel");
 }
